@@ -825,14 +825,15 @@ class Gen(object):
     def _F(self, cfg=None, invalid=False):
         r = self.rng
         self._tick()
+        # self.rev = the revision in force.  A Config entry takes effect only if it parses and carries self.rev + 1
+        # (applyRobustMessage, fix b3bad2c); the others (the same revision again, a stale or a future one) are skipped.
         k = r.random()
-        if k < 0.85:
-            self.rev += 1
-            rev = self.rev
+        if k < 0.85 or (cfg is not None and not invalid):
+            rev = self.rev + 1          # a configuration a scenario depends on must take effect
         elif k < 0.93:
             rev = self.rev
         else:
-            rev = r.randint(0, 100)
+            rev = r.choice([0, max(0, self.rev - 1), self.rev + 2, r.randint(0, 100)])
         if invalid:
             self.entries.append({"k": "F", "id": self.id, "ts": self.ts, "rev": rev, "toml": r.choice(INVALID_TOMLS),
                                  "cfg": "invalid"})
@@ -840,6 +841,9 @@ class Gen(object):
         cfg = cfg or self._config()
         toml, tok = config_render(cfg, r)
         self.entries.append({"k": "F", "id": self.id, "ts": self.ts, "rev": rev, "toml": toml, "cfg": tok})
+        if rev != self.rev + 1:
+            return
+        self.rev = rev
         self.cfg = cfg
         self.opers = list(cfg.get("ops", []))
         self.svcpw = list(cfg.get("svc", []))
@@ -2102,10 +2106,19 @@ def mon_c16(tr):
                 elif P is None and (Q.G["rev"] != 0):
                     F.append(("c16:invalid-config-changed-state", "an unparsable Config entry changed the revision", i))
             else:
-                if Q.G["body"] != e["cfg"] and st.outcome != "cfgmismatch":
-                    F.append(("c16:config-not-installed", "config after a valid Config entry is %s, want %s" % (Q.G["body"], e["cfg"]), i))
-                if Q.G["rev"] != e["rev"]:
-                    F.append(("c16:revision", "revision after Config entry is %d, want %d" % (Q.G["rev"], e["rev"]), i))
+                prev = P.G["rev"] if (P is not None and P.G is not None) else 0
+                if e["rev"] == prev + 1:
+                    if Q.G["body"] != e["cfg"] and st.outcome != "cfgmismatch":
+                        F.append(("c16:config-not-installed", "config after a valid Config entry is %s, want %s" % (Q.G["body"], e["cfg"]), i))
+                    if Q.G["rev"] != e["rev"]:
+                        F.append(("c16:revision", "revision after Config entry is %d, want %d" % (Q.G["rev"], e["rev"]), i))
+                else:
+                    # not the revision in force + 1: skipped at apply time, whatever the proposing handler saw
+                    if st.outcome not in ("cfgrev", "cfgmismatch"):
+                        F.append(("c16:stale-revision-applied", "Config entry with revision %d was not refused although revision %d is in force (outcome %s)" % (
+                            e["rev"], prev, st.outcome), i))
+                    if (P is not None and Q.text != P.text) or (P is None and Q.G["rev"] != 0):
+                        F.append(("c16:stale-revision-changed-state", "Config entry with revision %d changed the state although revision %d is in force" % (e["rev"], prev), i))
                 if P is not None and [r for r in Q.recs if not r.startswith("G/")] != [r for r in P.recs if not r.startswith("G/")]:
                     F.append(("c16:config-changed-other-state", "a Config entry changed non-configuration state", i))
         elif P is not None and P.G is not None:
